@@ -708,7 +708,11 @@ fn sid_text(shape: &str) -> Option<&'static str> {
     })
 }
 
-const EXTRA_CAPS: [&str; 4] = [
+const EXTRA_CAPS: [&str; 7] = [
+    // module and vendor capabilities are spelt with capitals by some (URIs are case-sensitive past the scheme and host)
+    "http://cisco.com/ns/yang/Cisco-IOS-XR-ifmgr-cfg?module=Cisco-IOS-XR-ifmgr-cfg",
+    "http://example.com/ns/Vendor-Feature",
+    "http://example.com/ns/vendor-feature",
     "urn:ietf:params:netconf:capability:with-defaults:1.0?basic-mode=explicit&also-supported=report-all",
     "urn:ietf:params:netconf:capability:notification:1.0",
     "urn:ietf:params:xml:ns:yang:ietf-netconf-monitoring?module=ietf-netconf-monitoring&revision=2010-10-04",
@@ -1294,7 +1298,12 @@ fn mutate(base: &[u8], op: &str, p: usize, q: usize, seed: u64) -> Vec<u8> {
         "leaftext" => {
             // replace the text of the p-th text-only element by an odd value
             let s = String::from_utf8_lossy(base).to_string();
-            let vals = ["", "[edit interfaces ge-0/0/0]", "-1", "99999999999999999999999999999999999999", " ", "\u{fc}n\u{ef}", "a/b", "0"];
+            // (8..11: numbers that parse and are absurd; 12..: unknown values longer than any excerpt, with characters of
+            // two, three and four bytes straddling every offset around 48 and 64)
+            let straddle: Vec<String> = [45usize, 46, 47, 48, 61, 62, 63].iter().map(|n| format!("{}\u{6f22}\u{5b57}\u{3b5}\u{3bb}\u{1d11e}\u{6f22}\u{5b57}\u{3b5}\u{3bb}\u{1d11e}", "a".repeat(*n))).collect();
+            let mut vals: Vec<&str> = vec!["", "[edit interfaces ge-0/0/0]", "-1", "99999999999999999999999999999999999999", " ", "\u{fc}n\u{ef}", "a/b", "0",
+                                           "18446744073709551615", "9223372036854775808", "4294967296", "5"];
+            vals.extend(straddle.iter().map(|x| x.as_str()));
             let mut k = 0usize;
             let mut i = 0usize;
             let b = s.as_bytes();
